@@ -133,10 +133,22 @@ class Check:
             lock.close()
 
     def go2coq_bin(self):
-        out = os.path.join(VERIF, "work", "bin", "go2coq")
+        """Build the translator. When the check sets `c.go2coq_sources = ["x.go", ...]` a private binary is built from
+        main.go + leaf.go + c15.go + exactly those files, so that another family's translator file cannot break this check."""
+        srcs = getattr(self, "go2coq_sources", None)
+        if srcs:
+            files = []
+            for f in ["main.go", "leaf.go", "c15.go"] + list(srcs):
+                if f not in files:
+                    files.append(f)
+            out = os.path.join(VERIF, "work", "bin", "go2coq-" + hashlib.sha1(" ".join(files).encode()).hexdigest()[:10])
+            target = files
+        else:
+            out = os.path.join(VERIF, "work", "bin", "go2coq")
+            target = ["."]
 
         def build():
-            rc, log = self.sh(["go", "build", "-o", out, "."], cwd=os.path.join(VERIF, "go2coq"), timeout=600)
+            rc, log = self.sh(["go", "build", "-o", out] + target, cwd=os.path.join(VERIF, "go2coq"), timeout=600)
             if rc != 0:
                 raise RuntimeError("go2coq does not build:\n" + log)
             return out
